@@ -34,6 +34,20 @@ CODE_TO_EXC = {
 ALL_CODES = sorted(CODE_TO_EXC)
 
 
+def add_in_place_edits(rng, actors, p=0.4, kinds=("unary", "sstream", "lro", "flat")):
+    """Caller behaviour: within one actor, a later call of the same RPC re-submits the request OBJECT of the earlier
+    call after editing it in place (op['mutate_of']).  Sequential within an actor, so it is legal for asyncio too."""
+    for a in actors:
+        last = {}
+        for op in a["ops"]:
+            if op.get("kind") in kinds and op.get("form") in ("msg", "dict") and not op.get("reuse_of"):
+                key = (op["service"], op["method"], op["form"])
+                prev = last.get(key)
+                if prev is not None and rng.random() < p:
+                    op["mutate_of"] = prev
+                last[key] = op["id"]
+
+
 def client_method(client, rpc):
     """Bound client method for an RPC (keyword-named RPCs carry one trailing underscore)."""
     n = snake(rpc)
@@ -52,7 +66,23 @@ def to_bytes(resp):
         return cls.serialize(resp), f"{cls.__module__}.{cls.__qualname__}"
     if hasattr(resp, "SerializeToString"):
         return resp.SerializeToString(), f"{cls.__module__}.{cls.__qualname__}"
-    raise TypeError(f"unexpected return value {resp!r}")
+    # The client handed the caller something that is no message at all (e.g. an un-awaited coroutine, a bare
+    # callable).  That is the library's failure, not the harness's: remember it (the driver turns it into a
+    # violation of every property, rule=not_a_message) and keep the run going.
+    name = f"{cls.__module__}.{cls.__qualname__}"
+    BAD_RETURNS.append(name)
+    if hasattr(resp, "close") and hasattr(resp, "cr_frame"):
+        resp.close()
+    return b"", "!not-a-message:" + name
+
+
+BAD_RETURNS = []
+
+
+def take_bad_returns():
+    out = list(BAD_RETURNS)
+    del BAD_RETURNS[:]
+    return out
 
 
 def describe(resp):
@@ -101,6 +131,13 @@ class Run:
         self.clients = {}
         self.channels = {}
         self.req_objects = {}
+        self.mut_objects = {}
+        # request objects are kept alive ONLY when a later op of the scenario re-submits them; everything else is
+        # dropped as an application would, so that freed objects can be followed by new ones at the same address
+        self.keep_ids = {o.get(k) for o in self.ops.values() for k in ("reuse_of", "mutate_of") if o.get(k) is not None}
+        for o in self.ops.values():
+            if o.get("nested"):
+                self.keep_ids.add(o["id"])
         self.cur_channel = {}
         self._last_key = None
         self.shared_md = {}
@@ -127,6 +164,25 @@ class Run:
         elif form == "both":
             kwargs["request"] = values.to_native(desc, op.get("request") or {})
             kwargs.update(values.to_native_kwargs(desc, op.get("kwargs") or {}))
+        if form in ("dict", "msg"):
+            # legal caller behaviour: ONE request object is kept by the caller, edited in place between calls
+            # (req.name = ...; client.get(request=req)); 'mutate_of' names the op whose object is edited here
+            prev = self.mut_objects.get(op.get("mutate_of")) if op.get("mutate_of") is not None else None
+            new = kwargs["request"]
+            if prev is not None and type(prev) is type(new):
+                if isinstance(prev, dict):
+                    prev.clear()
+                    prev.update(new)
+                elif hasattr(type(prev), "pb") and hasattr(type(prev), "serialize"):
+                    type(prev).pb(prev).Clear()
+                    type(prev).pb(prev).MergeFrom(type(new).pb(new))
+                else:
+                    prev.Clear()
+                    prev.MergeFrom(new)
+                kwargs["request"] = prev
+                self.sim.ev("request_object_edited_in_place", op=op["id"], of=op["mutate_of"])
+            if op["id"] in self.keep_ids:
+                self.mut_objects[op["id"]] = kwargs["request"]
         call = op.get("call") or {}
         r = call.get("retry", "default")
         if r == "none":
@@ -345,7 +401,7 @@ def _reuse_request(run, op, kwargs):
     behaviour); otherwise remember this op's request object."""
     if op.get("reuse_of") is not None and op["reuse_of"] in run.req_objects:
         kwargs["request"] = run.req_objects[op["reuse_of"]]
-    elif "request" in kwargs:
+    elif "request" in kwargs and op["id"] in run.keep_ids:
         run.req_objects[op["id"]] = kwargs["request"]
 
 
